@@ -1,14 +1,22 @@
 """C12 - decided by spec/PonySession.tla: TLC checks the specification's invariants and action properties
 exhaustively in the bounded model; behaviours of the exported state graph are replayed into the real ORM on
-SQLite (harness/session.py) and this property's comparator decides (see harness/session_check.py)."""
-from .. import session_check, session_replay
+SQLite (harness/session.py) and this property's comparator decides (see harness/session_check.py).
+spec/PonyRefresh.tla adds the refresh of cached objects by rows another transaction changed (EndsAgree)."""
+from .. import session_check, session_replay, refresh_c11
 
 LEVEL = 'model_checking'
 
 
 def run(ctx):
     session_check.run(ctx, 'C12')
+    quick = ctx.tier == 'quick'
+    res, stats, found = refresh_c11.run(ctx, 1200 if quick else 12000, 2 if quick else 4)
+    refresh_c11.report(ctx, 'C12', res, stats, found)
 
 
 def replay(ctx, rep):
+    if 'refresh_trace' in rep:
+        refresh_c11.replay(ctx, rep)
+        ctx.violations.append('replayed')
+        return
     session_replay.replay(ctx, rep)
